@@ -37,6 +37,7 @@ TRUSTED_BASE = [
     'axioms: subset of {propext, Classical.choice, Quot.sound}; no native_decide / bv_decide / own axioms / sorry (grep + #print axioms audit on every run)',
     'Mathlib v4.33.0 as compiled on the image (single modules imported in proof files only)',
     'hand transcription of the anchored code into lean/PyamgV/Model (validated, not proved, by the correspondence run of this check)',
+    'translators harness/translate.py (tables), harness/py2lean.py (pure decision logic), harness/py2lean2.py (event-semantics slices of impure functions) from the working tree to lean/PyamgV/Generated/*.lean, with the runtime libraries Model/ExtPyRt.lean / ExtPy2Rt.lean giving the CPython semantics of the translated subset (self-tested against CPython; the generated definitions are also run against the real functions on every run)',
     'harness/corebuild.py: extern "C" forwarders over the working-tree headers (pointer forwarding only) and g++',
     'harness comparison code; NumPy/SciPy/LAPACK/SuperLU under the contracts named in DESIGN.md section 3',
     'exact-field model: IEEE rounding, overflow and NaN propagation are outside the model',
